@@ -1,4 +1,60 @@
+//! C12 — "Failures surface to the caller with a schedule that reproduces them".
+//! Engine E6 (history enumerator): every history of configured Shuttle runs is executed in a fresh
+//! child process (`child-history`), every emitted schedule is replayed in another fresh child
+//! (`child-replay`); the parent enumerates, captures stderr, inspects the persistence directories
+//! and judges every failing run of every history against the property statement.
+
+mod bodies;
+mod child;
+mod parent;
+mod spec;
+
+fn usage() -> ! {
+    eprintln!("usage: vx-c12 check C12 quick|thorough|--replay <path>");
+    std::process::exit(2)
+}
+
 fn main() {
-    eprintln!("MACHINERY-ERROR: not built yet");
-    std::process::exit(2);
+    let args: Vec<String> = std::env::args().collect();
+    match args.get(1).map(|s| s.as_str()) {
+        Some("zygote") => child::zygote(),
+        Some("child-history") => {
+            let spec: spec::HistorySpec = serde_json::from_str(args.get(2).map(|s| s.as_str()).unwrap_or("")).unwrap_or_else(|e| {
+                eprintln!("child-history: bad spec: {}", e);
+                std::process::exit(3)
+            });
+            let obs = child::history(&spec);
+            println!("{}", serde_json::to_string(&obs).unwrap());
+        }
+        Some("child-replay") => {
+            let spec: spec::ReplaySpec = serde_json::from_str(args.get(2).map(|s| s.as_str()).unwrap_or("")).unwrap_or_else(|e| {
+                eprintln!("child-replay: bad spec: {}", e);
+                std::process::exit(3)
+            });
+            let o = child::replay(&spec);
+            println!("{}", serde_json::to_string(&o).unwrap());
+        }
+        Some("check") => {
+            let id = args.get(2).cloned().unwrap_or_else(|| usage());
+            if id != "C12" {
+                eprintln!("MACHINERY-ERROR: vx-c12 only implements C12, got {}", id);
+                std::process::exit(2);
+            }
+            let mode = args
+                .get(3)
+                .cloned()
+                .or_else(|| std::env::var("VERIF_TIER").ok())
+                .unwrap_or_else(|| usage());
+            match mode.as_str() {
+                "quick" => parent::check(vx::common::Tier::Quick),
+                "thorough" => parent::check(vx::common::Tier::Thorough),
+                "--replay" => {
+                    let path = args.get(4).cloned().unwrap_or_else(|| usage());
+                    parent::replay_file(&path)
+                }
+                _ => usage(),
+            }
+        }
+        _ => usage(),
+    }
 }
